@@ -343,8 +343,8 @@ def h_fault_late(f: int, template: str, where: str, probe: bool = True) -> None:
             except OSError:
                 fired = True
             fs.fail_at = None
-            assume(bool(fs.fault_log) == fired)
-            assume(fired)                      # f beyond the last operation of the abort: nothing to see
+            # (whether the abort passed the error on or swallowed it, what follows must hold)
+            assume(bool(fs.fault_log))         # f beyond the last operation of the abort: nothing to see
             note('fired', fs.fault_log[-1][1])
         else:
 
